@@ -88,6 +88,15 @@ func cmdRun(args []string) int {
 		}
 	}()
 	insts := def.Instances(tier)
+	// wall-clock budget of one instance (instances share the solver pool, so an instance can live as
+	// long as the whole run): twice the longest clean run of the tier
+	if os.Getenv("VERIF_TIME_BUDGET") == "" {
+		if tier == "thorough" {
+			os.Setenv("VERIF_TIME_BUDGET", "7200")
+		} else {
+			os.Setenv("VERIF_TIME_BUDGET", "1500")
+		}
+	}
 	sort.SliceStable(insts, func(i, j int) bool { return insts[i].Weight > insts[j].Weight })
 	kf := loadKnown()
 
